@@ -318,7 +318,9 @@ CHECKS["C10"] = dict(
     technique="rapid fault injection of Close into generated histories under testing/synctest (goroutine accounting) + rapid concurrent schedules under the Go race detector",
     assumptions=_TUN_ASSUME,
     jobs=[dict(name="bubble", pkg="./tun", go=GO126, test="TestC10B", shards=(4, 16), checks=(2000, 25000), timeout=(600, 3000)),
-          dict(name="race", pkg="./tun", go=GO, test="TestC10R", race=True, shards=(4, 16), checks=(60, 1000), timeout=(600, 3000))],
+          dict(name="race", pkg="./tun", go=GO, test="TestC10R", race=True, shards=(4, 16), checks=(60, 1000), timeout=(600, 3000)),
+          # Close while the gateway streams (next telegram on every acknowledgement): bounded return, one disconnect request
+          dict(name="stream", pkg="./tun", go=GO, test="TestC10Stream", shards=(2, 8), checks=(10, 120), timeout=(600, 3000))],
 )
 
 CHECKS["C05"] = dict(
@@ -489,6 +491,23 @@ _R12 = {
     "C20": " A fifth of the matching description responses lack the device-information block, the service-families block or both (built by cutting blocks out of the complete response).",
 }
 for _k, _v in _R12.items():
+    RULE_ADDENDA[_k] = RULE_ADDENDA.get(_k, "") + _v
+# round 13 of the seeded changes
+_R13 = {
+    "C02": " The expectation is a second value built from the same description: the encoder must leave the value it is handed as it was (encode-changes-value), and in the relay part the decoded value is compared before and after re-encoding.",
+    "C03": " Real-clock reconnect plans deliver the pending request's acknowledgement behind a same-channel reconnect; a request first transmitted after the client took the first connect response behind the last disconnect request carries at most the count of requests first transmitted since.",
+    "C05": " The stream job also has 2..3 application goroutines in Send, a gateway that follows the rules for the application's requests and loses the first transmission of every 2nd..9th request: repetitions carry the same telegram, nothing is on the bus twice, every successful Send is on the bus once.",
+    "C09": " A fifth of the plans let the socket refuse drawn connection-state requests (first transmissions and repetitions): the exchange and the epoch end there and the connect request is due at that instant. The same-channel restart clause of C03 applies to the real-clock job.",
+    "C10": " Job stream: the gateway streams on acknowledgement (1..16 telegrams in flight) through a socket whose Inbound() channel buffers 0/1/16 frames filled synchronously; Close after 1..150 ms returns within 3 s, exactly one disconnect request, Inbound closed, a Send afterwards fails - with and without an answer to the disconnect request.",
+    "C11": " Three octets are appended to the decoded additional info and to the decoded payload; every other field of the decoded frame stays as it was.",
+    "C12": " The in-memory gateway of the tunnel client follows the rules (one request at a time, repeated until acknowledged) and a third of those plans let the socket refuse drawn acknowledgements.",
+    "C13": " A quarter of the pacing plans contain a Send of a message that cannot be encoded (panic inside the socket's Send, recovered by the caller).",
+    "C17": " A third of the UDP plans let the socket refuse 1..3 of the client's acknowledgements.",
+    "C18": " Every character of the 24 valid texts is also replaced by the runes congruent to it modulo 256 and 65536.",
+    "C19": " Every registered name with k * 2^8 / 2^16 / 2^31 / 2^32 / 2^63 / 2^64 added to its main number.",
+    "C20": " A third of the discover plans have a responder bound to the discovery port itself (address reuse) that sends a response 40..70 ms into the call.",
+}
+for _k, _v in _R13.items():
     RULE_ADDENDA[_k] = RULE_ADDENDA.get(_k, "") + _v
 for _k, _add in RULE_ADDENDA.items():
     if " Non-trivial =" in CHECKS[_k]["rule"]:
